@@ -300,6 +300,7 @@ def expand_c12(st, seed):
     r["ptab"] = [[rng.choice([-2, 1, 3]) + 2 * i for i in range(b)] if (k + 1) in st["batched"] else [] for k in range(3)]
     r["pshape"] = st["pshape"]
     r["pint"] = bool(st.get("pint"))
+    r["pkrev"] = bool((b + len(st["batched"]) + len(st["hetero"])) % 2)
     r["w"]["dyn"] = [1, 2]
     if lk == "ode":
         r["ic"] = dict(on=True, t0=1, u0=[2])
@@ -541,6 +542,8 @@ def expand_eq(st, seed):
         r["U"] = [rpoly(rng, 2, 3, 2, must=1) + [dict(c=rng.choice([1, -1, 2]), e=[0, 2])]]      # u_xx never vanishes identically
         r["par"] = dict(nu=val("nu"))
         r["pts"] = [rpoint(rng, 2, True) for _ in range(4)]
+        if st["layout"] == "sliced":
+            r["D"] = rpoly(rng, 2, 3, 2, must=0) + [dict(c=rng.choice([1, 2]), e=[1, 1])]      # the other output of the network (not the solution)
     elif eq == "fisher":
         d = st["dim"]
         r["U"] = [rpoly(rng, 1 + d, 3, 2, must=1) + [dict(c=k + 1, e=[2 if i == 1 + k else 0 for i in range(1 + d)]) for k in range(d)]]   # every u_{x_k x_k} is non-zero
